@@ -197,6 +197,12 @@ def f6(src, st):
         b = impl_body(src[mod], 'AsCborValue', ty)
         fb = fn_body(b, 'from_cbor_value') if b else None
         tb = fn_body(b, 'to_cbor_value') if b else None
+        if fb and 'remove' not in fb:
+            # the conversion may delegate to an inherent `from_cbor_value_depth` (nesting-budget variant)
+            for m2 in re.finditer(r'impl\s+' + ty + r'\s*\{', src[mod]):
+                ib = src[mod][m2.end() - 1:block(src[mod], m2.end() - 1)]
+                if re.search(r'fn\s+from_cbor_value_depth\s*\(', ib):
+                    fb = fn_body(ib, 'from_cbor_value_depth')
         if not fb or not tb:
             ok = False; continue
         # arity condition: the first `if` after try_as_array
@@ -385,6 +391,8 @@ def emit(facts):
         L.append('def %s_emitOrder : List String := %s' % (ty, llist([lstr(x) for x in order])))
     L.append('')
     fields, used = facts['F7']
+    mm = re.search(r'const\s+MAX_SIGNATURE_NESTING\s*:\s*usize\s*=\s*(\d+)\s*;', load()['header'])
+    if mm: L.append('/-- nesting budget for signatures inside headers -/\ndef MAX_SIGNATURE_NESTING : Nat := %s\n' % mm.group(1))
     L.append('/-! F7 -/')
     L.append('def headerFields : List String := %s' % llist([lstr(x) for x in fields]))
     L.append('def headerIsEmptyTests : List (String × String) := %s' % llist(['(%s, %s)' % (lstr(a), lstr(b)) for a, b in used]))
